@@ -96,6 +96,11 @@ TEMPLATES = [
     ("value-after-a-missing-value-in-a-block",
      HEAD + "GROUP = g\n  a =\n  b = {c}1\nEND_GROUP\nEND\n", True),
     ("name-after-a-missing-value", HEAD + "a =\n{c}b = 1\nEND\n", True),
+    # the very end of a text that has no END statement
+    ("last-character-of-a-text-without-END", HEAD + "k = 1\n{c}", True),
+    ("last-characters-of-a-text-without-END", HEAD + "k = 1\n{c}{c}{c}", True),
+    ("end-of-last-value-of-a-text-without-END", HEAD + "k = @abc{c}", True),
+    ("last-line-of-a-text-without-END", HEAD + "k = 1\n{c}\n", True),
     ("after-END-newline", HEAD + "k = 1\nEND\n{c} trailing", False),
     ("after-END-directly", HEAD + "k = 1\nEND{c}", False),
     ("after-END-space", HEAD + "k = 1\nEND {c}{c}", False),
